@@ -3134,11 +3134,19 @@ fn convert_group_choice<'a>(
   #[cfg(feature = "ast-span")]
   let span = pest_span_to_ast_span(&pair.as_span(), input);
 
-  let mut group_entries = Vec::new();
+  let mut group_entries: Vec<(ast::GroupEntry<'a>, ast::OptionalComma<'a>)> = Vec::new();
 
   for inner in pair.into_inner() {
     if inner.as_rule() == Rule::group_entry {
       let entry = convert_group_entry(inner, input)?;
+
+      // Entries are always displayed with a separating comma. Without one the
+      // boundary between two entries depends on how the text is re-tokenized
+      // (`#, 0* int` displayed as `# 0* int` reads as `#0 * int`).
+      if let Some(previous) = group_entries.last_mut() {
+        previous.1.optional_comma = true;
+      }
+
       group_entries.push((
         entry,
         ast::OptionalComma {
